@@ -1,28 +1,28 @@
 (* HRevolve, unconditional: the constructor is total on the documented domain (HRevTotal), so the run theorems of HRevRun
-   hold for every max_n >= 1, snapshots_in_ram >= 1, snapshots_on_disk >= 0 and every cost vector. *)
+   hold on the whole documented domain: max_n >= 1, snapshots_in_ram >= 0 (>= 1 when max_n >= 2), snapshots_on_disk >= 0, every cost vector. *)
 From Coq Require Import ZArith List Lia Bool.
 Require Import Actions Ops HRevSeq RevConv Exec Sched RunFacts DiskBridge3 DiskRun HRevRun HRevTotal.
 Import ListNotations.
 Open Scope Z_scope.
 
-Theorem hrevolve_sequence_total N ram disk uf ub wd rd : 1 <= N -> 1 <= ram -> 0 <= disk -> exists L, sequence KHRevolve N ram disk uf ub wd rd = Ok L.
-Proof. intros HN Hram Hd. exact (hrevolve_total (N - 1) ram disk wd rd uf ub ltac:(lia) Hram Hd). Qed.
+Theorem hrevolve_sequence_total N ram disk uf ub wd rd : 1 <= N -> 0 <= ram -> (2 <= N -> 1 <= ram) -> 0 <= disk -> exists L, sequence KHRevolve N ram disk uf ub wd rd = Ok L.
+Proof. intros HN Hram Hram1 Hd. exact (hrevolve_total (N - 1) ram disk wd rd uf ub ltac:(lia) Hram ltac:(lia) Hd). Qed.
 
-Theorem hrevolve_run_total N ram disk uf ub wd rd k : 1 <= N -> 1 <= ram -> 0 <= disk ->
+Theorem hrevolve_run_total N ram disk uf ub wd rd k : 1 <= N -> 0 <= ram -> (2 <= N -> 1 <= ram) -> 0 <= disk ->
   exists o0 m ls, run_case (PRev KHRevolve N ram disk uf ub wd rd) (disk_xparams N ram) (repeat Next k) = Ok (o0, m, ls) /\
     no_raise ls /\ DiskBridge3.leftover_or_ok m.
 Proof.
-  intros HN Hram Hd. destruct (hrevolve_sequence_total N ram disk uf ub wd rd HN Hram Hd) as [L HL].
-  exact (hrevolve_run N ram disk uf ub wd rd L k HN Hram HL).
+  intros HN Hram Hram1 Hd. destruct (hrevolve_sequence_total N ram disk uf ub wd rd HN Hram Hram1 Hd) as [L HL].
+  exact (hrevolve_run N ram disk uf ub wd rd L k HN Hram Hram1 HL).
 Qed.
 Print Assumptions hrevolve_run_total.
 
-Theorem hrevolve_terminates_total N ram disk uf ub wd rd : 1 <= N -> 1 <= ram -> 0 <= disk ->
+Theorem hrevolve_terminates_total N ram disk uf ub wd rd : 1 <= N -> 0 <= ram -> (2 <= N -> 1 <= ram) -> 0 <= disk ->
   exists L K, sequence KHRevolve N ram disk uf ub wd rd = Ok L /\ forall k, (K <= k)%nat ->
   let '(s', m, ls) := run_ops (disk_xparams N ram) {| ob := ORevF KHRevolve N ram disk (init_r L); started := false |} mon0 (repeat Next k) in
   no_raise ls /\ DiskBridge3.leftover_or_ok m /\ is_exhausted s' = true.
 Proof.
-  intros HN Hram Hd. destruct (hrevolve_sequence_total N ram disk uf ub wd rd HN Hram Hd) as [L HL].
-  destruct (hrevolve_terminates N ram disk uf ub wd rd L HN Hram HL) as [K HK]. exists L, K. split; [exact HL|exact HK].
+  intros HN Hram Hram1 Hd. destruct (hrevolve_sequence_total N ram disk uf ub wd rd HN Hram Hram1 Hd) as [L HL].
+  destruct (hrevolve_terminates N ram disk uf ub wd rd L HN Hram Hram1 HL) as [K HK]. exists L, K. split; [exact HL|exact HK].
 Qed.
 Print Assumptions hrevolve_terminates_total.
